@@ -192,8 +192,12 @@ def main():
     req = json.load(open(sys.argv[1]))
     traces = []
     # warm up (one-time initialisations before forking)
-    one_call({"dtype": "float32", "act": "qint8", "wq": "qint8", "waxis": "per-axis", "rows": 2, "K": 4, "N": 2, "brank": 2, "bias": True, "fam": "ramp"}, "linear", True)
-    one_call({"dtype": "float32", "act": "float", "wq": "qint4", "waxis": "per-axis", "rows": 2, "K": 4, "N": 2, "brank": 2, "bias": True, "fam": "ramp"}, "linear", True)
+    for warm in ({"dtype": "float32", "act": "qint8", "wq": "qint8", "waxis": "per-axis", "rows": 2, "K": 4, "N": 2, "brank": 2, "bias": True, "fam": "ramp"},
+                 {"dtype": "float32", "act": "float", "wq": "qint4", "waxis": "per-axis", "rows": 2, "K": 4, "N": 2, "brank": 2, "bias": True, "fam": "ramp"}):
+        try:
+            one_call(warm, "linear", True)
+        except Exception:  # noqa: BLE001  (the isolated calls below report it)
+            pass
     jobs = []
     for case in req["cases"]:
         c = case["cfg"]
